@@ -1,19 +1,19 @@
 SPECIFICATION Spec
 CONSTANTS
-  MaxLeaves = 2
-  MaxOps = 2
-  MaxStack = 2
-  VarSet <- VarsA
-  NumSet <- NumsA
-  FuncSet <- FuncsA
-  Toks <- ToksA
-  GToks <- GToksA
-  IntExps <- ExpsA
+  MaxLeaves = 4
+  MaxOps = 6
+  MaxStack = 3
+  VarSet <- AllVars
+  NumSet <- AllNums
+  FuncSet <- AllFuncs
+  Toks <- AllToks
+  GToks <- AllGToks
+  IntExps <- AllExps
   Wraps <- AllWraps
-  Muts <- NoStrings
-  Cors <- NoStrings
-  Styles <- NoStrings
-  EmitMin = 0
+  Muts <- AllMuts
+  Cors <- AllCors
+  Styles <- OneStyle
+  EmitMin = 2
   Bug = ""
 INVARIANT VerdictAgree
 INVARIANT FreeAgree
